@@ -123,6 +123,7 @@ def _protocol(records: list[dict], base_name: str) -> tuple[list[list[dict]], li
 
     saves_spec, saves_kill = [], []
     open_renames: set = set()
+    incomplete: set = set()
     for k in range(1, nsaves + 1):
         tk = [t for t in ticks if t["save"] == k]
         ops = [o for o in fsops if o["save"] == k and tk[0]["n"] <= o["n"] < tk[-1]["n"]]
@@ -159,9 +160,15 @@ def _protocol(records: list[dict], base_name: str) -> tuple[list[list[dict]], li
                     fin = first_next
                 # a rename performed while the writer still holds the file open moves a file whose data may still be buffered
                 for o2 in ops:
-                    if o2["fsop"] == "rename" and o2.get("src_open") and o2["n"] > o["n"] and fin <= o2["n"]:
-                        fin = o2["n"] + 1
+                    if o2["fsop"] == "rename" and o2.get("src_open") and o2["n"] > o["n"]:
+                        # completion = the writer closes the file: first instruction at which no descriptor points to it any more
+                        closed = next((t["n"] for t in ticks if t["n"] > o2["n"] and name_at(t["n"]) not in t.get("open", [])), first_next)
+                        fin = max(fin, closed)
                         open_renames.add(k)
+                        # did this very save leave data unwritten at the rename? (then a real kill can show the loss)
+                        after = next((t for t in ticks if t["n"] == o2["n"] + 1), None)
+                        if after is not None and after["fs"].get(o2["dst"]) != final:
+                            incomplete.add(k)
                 items.append((fin - 0.5, {"op": "finish", "src": nm(name_at(fin)), "dst": nm(name_at(fin))}))
             elif o["fsop"] == "rename":
                 items.append((float(o["n"]), {"op": "rename", "src": nm(o["src"]), "dst": nm(o["dst"])}))
@@ -188,6 +195,7 @@ def _protocol(records: list[dict], base_name: str) -> tuple[list[list[dict]], li
             pc = sum(1 for pos, _ in items if pos < n) + 1
             out.append((n, label, pc))
         saves_kill.append(out)
+    names["__incomplete_at_rename__"] = sorted(incomplete)
     return saves_spec, saves_kill, names
 
 
@@ -230,6 +238,8 @@ def run(ctx: Ctx) -> None:
         for ks in shapes.values():
             step = max(1, len(ks) // 5)
             chosen |= set(ks[::step][:6])
+        inc = [k for k in names.pop("__incomplete_at_rename__", []) if k >= 2]
+        chosen |= set(inc[:: max(1, len(inc) // 4)][:4])      # saves whose data was observed incomplete at the rename
         chosen = sorted(chosen)
         chosen = [k for k in chosen if k <= len(saves)]
         ctx.coverage.setdefault("protocol_shapes", {})[kind] = {"saves_recorded": len(saves), "distinct_shapes": len(shapes), "saves_injected": chosen}
